@@ -1140,6 +1140,140 @@ def errmsg_rule(res, model):
 # ---------------------------------------------------------------------------------------------------------------
 
 
+def attr_bound_rule(res):
+    """R-ATTR-BOUND: the attribute reader `ReadAttr(elem, name, len, dest, ..)` copies up to `len` values of the document
+    into `dest`.  Where `dest` is storage of fixed extent (a local array, an array member), `len` must be bounded by that
+    extent on every path to the call: a constant not larger than it, or an expression the guards of the call bound by it.
+    A length taken from the document itself (e.g. the `size` attribute) without such a guard lets a malformed document
+    write past the buffer instead of being rejected."""
+    from .. import norm, linform as _lf
+    res.rule("R-ATTR-BOUND", "ReadAttr lengths are bounded by the extent of fixed-size destinations", floor=40)
+    nsites = 0
+    for tu in ("src/xml/xml_native_reader.cc", "src/xml/xml_urdf.cc", "src/xml/xml_native_writer.cc"):
+        try:
+            ir = cfront.load_tu(tu, lang="cxx")
+        except AnalysisError:
+            if tu.endswith("xml_native_reader.cc"):
+                raise
+            continue
+        for d in ir["decls"]:
+            for fn0 in cir.walk(d):
+                if fn0.get("k") not in ("CXXMethodDecl", "FunctionDecl") or cir.body(fn0) is None:
+                    continue
+                if not any(cir.is_call(c) and cir.callee(c) == "ReadAttr" for c in cir.walk(fn0)):
+                    continue
+                fn = norm.nest(fn0)
+                body = cir.body(fn)
+                defs = _lf.single_defs(fn)
+                for c in cir.walk(body):
+                    if not (cir.is_call(c) and cir.callee(c) == "ReadAttr" and len(cir.args(c)) >= 4):
+                        continue
+                    a = cir.args(c)
+                    dst = cir.strip(a[3])
+                    t = (dst or {}).get("t") or ""
+                    m_ = re.search(r"\[(\d+)\]$", t.strip())
+                    if dst is None or not m_ or dst.get("k") not in ("DeclRefExpr", "MemberExpr"):
+                        continue           # pointer destinations: extent unknown here (table-driven reads are R-LAYOUT's)
+                    cap = int(m_.group(1))
+                    nsites += 1
+                    lf = _lf.linform(a[2], defs)
+                    key = f"{fn0.get('n')}:{cir.text(dst)}:{cir.text(a[1])}"
+                    if set(lf) <= {"1"}:
+                        n_ = lf.get("1", 0)
+                        if n_ <= cap:
+                            res.ok("R-ATTR-BOUND", key, None)
+                        else:
+                            res.bad("R-ATTR-BOUND", key, tu, c.get("line"),
+                                    f"ReadAttr may copy {n_} values into `{cir.text(dst)}`, which holds {cap}")
+                        continue
+                    # variable length: the guards of the call (and, for `c ? a : b` / min(a, K), the condition of the arm) must
+                    # bound it by the capacity
+                    def bounded_by(expr, gs, depth=0):
+                        e = cir.strip(expr)
+                        if e is not None and e.get("k") == "DeclRefExpr" and depth < 3:
+                            # a local defined once (never reassigned) stands for its initialiser, whatever its form
+                            vid = (e.get("ref") or {}).get("id")
+                            decl = [x for x in cir.walk(fn) if x.get("k") == "VarDecl" and x.get("id") == vid and x.get("init")]
+                            reas = [x for x in cir.walk(fn) if ((x.get("k") == "BinaryOperator" and x.get("op") == "=") or
+                                                                 x.get("k") == "CompoundAssignOperator" or
+                                                                 (x.get("k") == "UnaryOperator" and x.get("op") in ("++", "--", "&")))
+                                    and (cir.strip(cir.kids(x)[0]) or {}).get("k") == "DeclRefExpr"
+                                    and (cir.strip(cir.kids(x)[0]).get("ref") or {}).get("id") == vid]
+                            if len(decl) == 1 and not reas:
+                                init = [c2 for c2 in cir.kids(decl[0]) if c2 is not None][-1]
+                                if cir.strip(init).get("k") in ("ConditionalOperator", "CallExpr"):
+                                    return bounded_by(init, gs, depth + 1)
+                        if e is not None and e.get("k") == "ConditionalOperator":
+                            c0, a0, b0 = cir.kids(e)
+                            return bounded_by(a0, gs + norm.split_cond(c0, True), depth) and bounded_by(b0, gs + norm.split_cond(c0, False), depth)
+                        if e is not None and cir.is_call(e) and (cir.callee(e) or "").split("::")[-1] in ("min", "mjMIN", "mju_min"):
+                            return any(bounded_by(x_, gs, depth) for x_ in cir.args(e))
+                        lf_ = _lf.linform(e, defs)
+                        if set(lf_) <= {"1"}:
+                            return lf_.get("1", 0) <= cap
+                        for g_, pol in gs:
+                            rel = _lf.relation(g_, pol, defs)
+                            if not rel:
+                                continue
+                            f_, strict = rel
+                            # f_ >= 0 (or > 0) with f_ = K - len : len <= K (- 1 if strict)
+                            diff = _lf._add(f_, lf_, 1)
+                            if set(diff) <= {"1"} and diff.get("1", 0) - (1 if strict else 0) <= cap:
+                                return True
+                        return False
+                    bounded = bounded_by(a[2], list(norm.guards(body, c) or ()))
+                    if bounded:
+                        res.ok("R-ATTR-BOUND", key, {"bounded_by_guard": True})
+                    else:
+                        res.bad("R-ATTR-BOUND", key, tu, c.get("line"),
+                                f"ReadAttr copies up to `{cir.text(a[2])}` values into `{cir.text(dst)}` ({t}), and nothing on the way to "
+                                f"the call bounds that length by {cap}: a document with a larger value overruns the buffer before any "
+                                f"size check can reject it")
+    if nsites == 0:
+        raise AnalysisError("no ReadAttr call with a fixed-extent destination found")
+
+
+def format_rule(res):
+    """R-FORMAT: mjXError's second constructor argument is a printf format (it is expanded with sprintf).  It must be a string
+    literal: a message assembled at run time — in particular one that quotes text of the document — has to be passed as an
+    argument of "%s", otherwise conversion specifications inside it are interpreted (a class name `%n%n` crashes the loader
+    instead of being rejected)."""
+    res.rule("R-FORMAT", "the format argument of every mjXError construction is a string literal", floor=100)
+    n = 0
+    for tu in ("src/xml/xml_native_reader.cc", "src/xml/xml_urdf.cc", "src/xml/xml_util.cc", "src/xml/xml_base.cc", "src/xml/xml_api.cc",
+               "src/xml/xml.cc", "src/xml/xml_native_writer.cc"):
+        try:
+            ir = cfront.load_tu(tu, lang="cxx")
+        except AnalysisError:
+            if tu.endswith("xml_native_reader.cc"):
+                raise
+            continue
+        for d in ir["decls"]:
+            for fn in cir.walk(d):
+                if fn.get("k") not in ("CXXMethodDecl", "FunctionDecl", "CXXConstructorDecl") or cir.body(fn) is None:
+                    continue
+                if (fn.get("file") or tu) != tu:
+                    continue
+                for c in cir.walk(cir.body(fn)):
+                    if c.get("k") in ("CXXConstructExpr", "CXXTemporaryObjectExpr") and re.search(r"\bmjXError\b", c.get("t") or ""):
+                        a = [x for x in cir.kids(c) if x is not None]
+                        if len(a) < 2:
+                            continue
+                        m_ = cir.strip(a[1])
+                        if m_ is None or m_.get("k") in ("CXXDefaultArgExpr",):
+                            continue
+                        n += 1
+                        key = f"{fn.get('n')}:{cir.text(m_)[:40]}"
+                        if m_.get("k") == "StringLiteral" or cir.text(m_) in ("NULL", "0", "nullptr"):
+                            res.ok("R-FORMAT", key, None)
+                        else:
+                            res.bad("R-FORMAT", key, tu, c.get("line"),
+                                    f"{fn.get('n')} passes the run-time string `{cir.text(m_)[:70]}` as mjXError's printf format: any `%` in "
+                                    f"it (e.g. a name taken from the document) is interpreted as a conversion; pass it as the argument of \"%s\"")
+    if n < 100:
+        raise AnalysisError(f"only {n} mjXError constructions found")
+
+
 def run(res, tier):
     model = Model(cfront.REPO)
     res.count("tus", len(model.tus))
@@ -1147,6 +1281,8 @@ def run(res, tier):
     mustpass_rule(res, model)
     catch_rule(res, model)
     errmsg_rule(res, model)
+    attr_bound_rule(res)
+    format_rule(res)
     res.explanation = (
         "Static analysis of the XML loading path from clang's typed AST of all src/xml and src/user translation units "
         "and from the generated attribute tables parsed as data. R-LAYOUT: every generated mjXAttr row is checked "
